@@ -106,7 +106,7 @@ func normalizeDivision(s *slip.Scope, depth int, f slip.Object, args slip.List) 
 	if 1 < len(args) {
 		div = args[1]
 	}
-	num, div = slip.NormalizeNumber(args[0], div)
+	num, div = normalizeReals(args[0], div)
 	var zero bool
 	switch td := div.(type) {
 	case slip.Fixnum:
@@ -124,4 +124,21 @@ func normalizeDivision(s *slip.Scope, depth int, f slip.Object, args slip.List) 
 		slip.DivisionByZeroPanic(s, depth, f, args, "divide by zero")
 	}
 	return
+}
+
+// normalizeReals normalizes two numbers to the same type like
+// slip.NormalizeNumber except that a bignum paired with a ratio becomes a
+// ratio instead of both becoming long-floats so no precision is lost.
+func normalizeReals(v0, v1 slip.Object) (slip.Object, slip.Object) {
+	switch t0 := v0.(type) {
+	case *slip.Bignum:
+		if _, ok := v1.(*slip.Ratio); ok {
+			return (*slip.Ratio)(new(big.Rat).SetInt((*big.Int)(t0))), v1
+		}
+	case *slip.Ratio:
+		if t1, ok := v1.(*slip.Bignum); ok {
+			return v0, (*slip.Ratio)(new(big.Rat).SetInt((*big.Int)(t1)))
+		}
+	}
+	return slip.NormalizeNumber(v0, v1)
 }
